@@ -25,7 +25,14 @@ META = {
             'scripted child with every LOCAL/REMOTE/IGNORED map x 3 fixed plans) x one routing key per token range x shuffle_replicas off / on with '
             'every permutation x keyspace taken from the statement, the session, both (statement wins), or absent; plus lazy-consumption '
             'histories: the plan generator is advanced by every cut 0..n, then one host goes down (before or after the child is told) or comes '
-            'up, then the rest is consumed (no host twice, nothing of the wrapped plan left out).  Oracle: plan == [replicas of the '
+            'up, then the rest is consumed (no host twice, nothing of the wrapped plan left out); plus replication-change histories on every '
+            'ring x layout of the real-children family: a keyspace is created and then altered / dropped / re-created through Metadata.refresh '
+            '(targeted KEYSPACE refresh with protocol v4 and v2, full schema refresh; the schema parser is a stub of the server\'s schema rows), '
+            'one step = every ordered pair of {SimpleStrategy rf 1,3,2, NetworkTopologyStrategy 1/0, 2/1, 0/2} or a drop, through every entry '
+            'point; two steps (quick: rings of <=4 tokens) over the first four settings through targeted and full refresh; plans for one key per '
+            'token range (children RoundRobin and DCAwareRoundRobin(dc0, 1), all hosts up) are requested after every subset of the intermediate '
+            'steps and always at the end, and for a bystander keyspace (RoundRobin child) at the end; the oracle uses the replication settings in force at that '
+            'point (a dropped keyspace owes the wrapped plan unchanged).  Oracle: plan == [replicas of the '
             'key (independent placement reference) that are up and LOCAL for the child, in ring (or permuted) order] ++ [the child\'s recorded plan '
             'minus those], nothing repeated, nothing of the child\'s plan missing.',
     'note': 'Distances and the wrapped plan are inputs of the property and are read from the child (recording proxy). Ring order of '
@@ -364,6 +371,222 @@ def lazy_histories(part, c, pol, cluster, cfg, state, by_dc, SimpleStatement, Re
                         lazy_one(part, c, pol, cluster, cfg, state, by_dc, SimpleStatement, Recorder, si, ki, cut, hi, flip, family)
 
 
+# ------------------------------------------------------------------------------------ replication-change histories
+class SchemaServer(object):
+    """What the server's schema tables say now.  Stands in for the schema parser `Metadata.refresh` asks
+    (`cassandra.metadata.get_schema_parser` is rebound to return it): the server is environment, everything
+    from `Metadata.refresh` on is the driver's own code."""
+    def __init__(self):
+        self.rows = {}      # keyspace name -> (kind, opts)
+
+    def _meta(self, name):
+        import cassandra.metadata as md
+        kind, opts = self.rows[name]
+        return md.KeyspaceMetadata(name, True, c26.SIMPLE if kind == 'simple' else c26.NTS, dict(opts))
+
+    def get_keyspace(self, keyspaces, keyspace):
+        return self._meta(keyspace) if keyspace in self.rows else None
+
+    def get_all_keyspaces(self):
+        return [self._meta(name) for name in sorted(self.rows)]
+
+    def get_types_map(self, keyspaces, keyspace):
+        return {}
+
+
+class SchemaConn(object):
+    def __init__(self, endpoint, protocol_version):
+        self.endpoint, self.protocol_version = endpoint, protocol_version
+
+
+ENTRIES = ('targeted', 'targeted-v2', 'full')
+
+
+def change_settings(per_dc):
+    """the settings a keyspace is altered between: SimpleStrategy rf 1-3 and NetworkTopologyStrategy settings"""
+    n0, n1 = per_dc
+    out = [('simple', {'replication_factor': r}) for r in ('1', '3', '2')]
+    out.append(('nts', {'dc0': '1', 'dc1': '0'}))
+    out.append(('nts', {'dc0': '2', 'dc1': '1' if n1 else '0'}))
+    if n1:
+        out.append(('nts', {'dc0': '0', 'dc1': '2'}))
+    return out
+
+
+def change_histories_of(per_dc, deep):
+    """[(initial setting index, steps, mask)]: steps are ('alter'|'create', setting index, entry point) and ('drop', entry point);
+    mask[i] says whether plans are requested after step i-1 (mask[0]: for the freshly created keyspace); they always are at the end.
+    One step: every setting -> every other setting / dropped, through every entry point.  Two steps (deep): the first four
+    settings, entry points targeted and full."""
+    S = range(len(change_settings(per_dc)))
+    out = []
+
+    def steps_from(cur, settings, entries):
+        if cur is None:
+            return [('create', t, e) for t in settings for e in entries if e != 'targeted-v2']
+        return [('alter', t, e) for t in settings if t != cur for e in entries] + [('drop', e) for e in entries if e != 'targeted-v2']
+
+    def after(cur, step):
+        return None if step[0] == 'drop' else step[1]
+
+    for s0 in S:
+        for st1 in steps_from(s0, S, ENTRIES):
+            for m in ((True,), (False,)):
+                out.append((s0, (st1,), m))
+    if deep:
+        S2 = list(S)[:4]
+        E2 = ('targeted', 'full')
+        for s0 in S2:
+            for st1 in steps_from(s0, S2, E2):
+                for st2 in steps_from(after(s0, st1), S2, E2):
+                    for m in itertools.product((True, False), repeat=2):
+                        out.append((s0, (st1, st2), m))
+    return out
+
+
+class HistoryWorld(object):
+    """one ring + layout, no keyspace yet; token-aware policies over RoundRobin and (two DCs) DCAwareRoundRobin, all hosts up"""
+    def __init__(self, seq, locs, server):
+        import cassandra.policies as pol
+        Scripted, Recorder = make_policies()
+        self.seq, self.locs_t = seq, locs
+        self.per_dc = (sum(1 for d, _ in locs if d == 'dc0'), sum(1 for d, _ in locs if d == 'dc1'))
+        self.settings = change_settings(self.per_dc)
+        w = self.w = c26.World(seq, locs, 'murmur3', [])
+        self.keys = [w.query_keys[2 * i] for i in range(len(seq))]
+        self.server = server
+        self.conns = {'targeted': SchemaConn(w.hosts[0].endpoint, 4), 'targeted-v2': SchemaConn(w.hosts[0].endpoint, 2),
+                      'full': SchemaConn(w.hosts[0].endpoint, 4)}
+        cluster = self.cluster = FakeCluster(w.metadata)
+        by_dc = sorted(range(w.nhosts), key=lambda i: locs[i][0])
+        self.populate_order = [w.hosts[i] for i in by_dc]
+        self.children = []
+        cfgs = [('rr',)] + ([('dca', 'dc0', 1)] if self.per_dc[1] else [])
+        for h in w.hosts:
+            h.is_up = True
+        for cfg in cfgs:
+            inner = pol.RoundRobinPolicy() if cfg[0] == 'rr' else pol.DCAwareRoundRobinPolicy(local_dc=cfg[1], used_hosts_per_remote_dc=cfg[2])
+            rec = Recorder(inner)
+            tap = pol.TokenAwarePolicy(rec, shuffle_replicas=False)
+            tap.populate(cluster, [w.hosts[i] for i in by_dc])
+            dist = dict((w.names[i], tap.distance(w.hosts[i])) for i in range(w.nhosts))
+            self.children.append((cfg, tap, rec, dist))
+        self.up = dict((nm, True) for nm in w.names)
+        self.refs = {}
+        self.serial = 0
+        # a bystander keyspace whose replication never changes
+        self.server.rows['bystander'] = ('simple', {'replication_factor': '1'})
+        self.refresh('targeted', 'CREATED', 'bystander')
+
+    def refresh(self, entry, change, name):
+        md_ = self.w.metadata
+        if entry == 'full':
+            md_.refresh(self.conns[entry], 2.0)
+        else:
+            md_.refresh(self.conns[entry], 2.0, target_type='KEYSPACE', change_type=change, keyspace=name)
+
+    def ref(self, si, ki):
+        if (si, ki) not in self.refs:
+            if si == 'bystander':
+                self.refs[(si, ki)] = PL.simple_strategy(self.w.ring, '1', self.keys[ki][0])[0]
+            else:
+                kind, opts = self.settings[si]
+                self.refs[(si, ki)] = c26.reference(kind, opts, self.w.ring, self.w.locs, self.keys[ki][0])[0]
+        return self.refs[(si, ki)]
+
+
+def history_one(part, hw, s0, steps, mask):
+    """create the keyspace with setting s0, apply the steps through Metadata.refresh, request plans where the mask says and at the end.
+    The wrapped policies are populated anew first, so that a history behaves the same when it is replayed alone."""
+    from cassandra.query import SimpleStatement
+    w = hw.w
+    name_of = w.name_of
+    hw.serial += 1
+    ks = 'hk%d' % hw.serial
+    settings = hw.settings
+
+    def case_of(point, ki, cfg):
+        return {'history': True, 'seq': list(hw.seq), 'locs': [list(x) for x in hw.locs_t], 'initial': list(settings[s0]),
+                'initial_index': s0, 'steps': _listify(steps), 'mask': list(mask), 'observed_after_step': point, 'key_index': ki,
+                'child': _listify(cfg)}
+
+    def observe(point, cur, bystander=False):
+        which = 'bystander' if bystander else cur
+        for ki, (tok, key) in enumerate(hw.keys):
+            if which is None:
+                ref, replicas, order = [], set(), []
+                mnames = [name_of[h] for h in w.metadata.get_replicas(ks, key)]
+                meta_wrong = bool(mnames)
+            else:
+                ref = hw.ref(which, ki)
+                replicas = set(ref)
+                mnames = [name_of[h] for h in w.metadata.get_replicas('bystander' if bystander else ks, key)]
+                meta_wrong = set(mnames) != replicas or len(set(mnames)) != len(mnames)
+                order = ref if (bystander or settings[which][0] == 'simple') else mnames
+            suffix = '/metadata-replicas-differ' if meta_wrong else ''
+            for cfg, tap, rec, dist in (hw.children[:1] if bystander else hw.children):
+                del rec.plans[:]
+                q = SimpleStatement('select 1', routing_key=key, keyspace='bystander' if bystander else ks)
+                got = [name_of[h] for h in tap.make_query_plan(None, q)]
+                if len(rec.plans) != 1:
+                    raise HarnessError('wrapped policy asked %d times for a plan' % len(rec.plans))
+                child_plan = [name_of[h] for h in rec.plans[0]]
+                first, rest = prescribed(order, replicas, hw.up, dist, child_plan)
+                tag = '/bystander-keyspace' if bystander else ('/after-keyspace-%s' % steps[point - 1][0] if point else '/new-keyspace')
+                ok = judge(part, got, first, rest, replicas, hw.up, dist, tag, suffix, lambda: case_of(point, ki, cfg))
+                part.count('evaluations')
+                part.count('history_plans')
+                part.outcome(('history', 'bystander' if bystander else (steps[point - 1][0] if point else 'created'), len(first), len(rest), ok))
+                if point and first and rest and which is not None:
+                    part.count('nontrivial_plans')
+
+    for cfg, tap, rec, dist in hw.children:
+        tap.populate(hw.cluster, hw.populate_order)
+    try:
+        hw.server.rows[ks] = settings[s0]
+        hw.refresh('targeted', 'CREATED', ks)
+        cur = s0
+        if mask[0]:
+            observe(0, cur)
+        for i, step in enumerate(steps):
+            if step[0] == 'drop':
+                del hw.server.rows[ks]
+                hw.refresh(step[1], 'DROPPED', ks)
+                cur = None
+            else:
+                hw.server.rows[ks] = settings[step[1]]
+                hw.refresh(step[2], 'CREATED' if step[0] == 'create' else 'UPDATED', ks)
+                cur = step[1]
+            if i + 1 == len(steps) or mask[i + 1]:
+                observe(i + 1, cur)
+        observe(len(steps), None, bystander=True)
+        part.count('histories')
+    finally:
+        # leave the world without the keyspace (fresh name per history: nothing of it is reused)
+        if hw.server.rows.pop(ks, None) is not None:
+            hw.refresh('targeted', 'DROPPED', ks)
+
+
+def change_histories(part, seq, locs, deep, only=None):
+    import cassandra.metadata as md
+    import cassandra.policies as pol
+    orig, orig_randint = md.get_schema_parser, pol.randint
+    server = SchemaServer()
+    md.get_schema_parser = lambda connection, server_version, dse_version, timeout: server
+    pol.randint = lambda a, b: a if b <= a else a + 1
+    try:
+        hw = HistoryWorld(seq, locs, server)
+        if only is not None:
+            s0, steps, mask = only
+            history_one(part, hw, s0, steps, mask)
+            return
+        for s0, steps, mask in change_histories_of(hw.per_dc, deep):
+            history_one(part, hw, s0, steps, mask)
+        part.count('history_worlds')
+    finally:
+        md.get_schema_parser, pol.randint = orig, orig_randint
+
+
 def _listify(x):
     return [_listify(y) for y in x] if isinstance(x, (list, tuple)) else x
 
@@ -499,13 +722,19 @@ def worlds(ctx):
                 seen.add(seq)
                 for locs in c26.layouts(max(seq) + 1, max_dcs, 3):
                     out.append((fam, seq, locs))
+                    if fam == 'real':
+                        # replication-change histories: one step everywhere, two steps on rings of <= 4 tokens (thorough: everywhere)
+                        out.append(('history-deep' if (ctx.thorough or len(seq) <= 4) else 'history', seq, locs))
     return real, scripted, out
 
 
 def run_unit(unit):
     part = Part()
     for fam, seq, locs in unit:
-        run_world(part, seq, locs, fam)
+        if fam.startswith('history'):
+            change_histories(part, seq, locs, fam == 'history-deep')
+        else:
+            run_world(part, seq, locs, fam)
     return part
 
 
@@ -521,7 +750,9 @@ def run(ctx):
     ctx.cov['rule'] = ('worlds = rings (max hosts, max tokens/host, max DCs) real children %r, scripted child %r x all DC/rack layouts; per world: settings '
                        '(Simple rf 1-3, NTS grid) x child configs x host states x shuffle flag x one key per token range x (all permutations of the '
                        'replica list when shuffling) + 6 keyspace-source modes; every combination is distinct. non-trivial = plan with a non-empty '
-                       'replica head, a non-empty tail and at least one replica filtered out of the head (down, REMOTE or IGNORED)' % (real, scripted))
+                       'replica head, a non-empty tail and at least one replica filtered out of the head (down, REMOTE or IGNORED); for a plan inside a '
+                       'replication-change history: requested after at least one change, non-empty head and tail.  history_worlds / histories / '
+                       'history_plans count the replication-change layer' % (real, scripted))
     ctx.cov['exhaustive'] = True
     ctx.assume('the wrapped policy\'s plan and its distance() answers are inputs: they are recorded through a transparent proxy, '
                'not predicted')
@@ -530,6 +761,8 @@ def run(ctx):
     ctx.assume('randint used by RoundRobinPolicy/DCAwareRoundRobinPolicy.populate is fixed (start position 1 if possible)')
     ctx.assume('a statement without keyspace or routing key, or with a keyspace unknown to the metadata, has no known replicas: '
                'the wrapped plan is owed unchanged')
+    ctx.assume('replication changes reach the driver as Metadata.refresh calls (what the control connection does for a schema-change event '
+               'or a full refresh); the schema parser (the queries against the server\'s schema tables) is replaced by the current rows')
     ctx.assume('host states: is_up True/False (None = unknown is not generated); "down-unannounced" = Host.is_up False while the child '
                'policy has not received on_down (the window inside Cluster.on_down)')
 
@@ -537,6 +770,14 @@ def run(ctx):
 def replay(ctx, data):
     part = Part()
     seq, locs = tuple(data['seq']), tuple(tuple(x) for x in data['locs'])
+    if data.get('history'):
+        steps = tuple(tuple(x) for x in data['steps'])
+        change_histories(part, seq, locs, True, only=(data['initial_index'], steps, tuple(data['mask'])))
+        if not part.counters.get('history_plans'):
+            raise HarnessError('replay did not reach the recorded point')
+        for fp, what, d in part.violations:
+            print(fp, '::', what[:600])
+        return bool(part.violations)
     if data.get('lazy'):
         import cassandra.policies as pol
         from cassandra.query import SimpleStatement
